@@ -147,7 +147,13 @@ impl<'a> ExecutionEngine<'a> {
     pub fn execute(&mut self, line: String, config: &ExecutionConfig) -> ExecutionResult<ExecutionOutput> {
         match self.statement {
             Statement::Select(select_statement) => {
-                let output = self.execute_select(&select_statement, line)?;
+                let mut output = self.execute_select(&select_statement, line)?;
+
+                // A line can produce several rows (join): only keep the ones that fit within the limit
+                if let (Some(limit), Some(row)) = (select_statement.limit, output.result_row.as_mut()) {
+                    row.data.truncate(limit.saturating_sub(self.num_output_rows));
+                }
+
                 let output = self.update_limit(select_statement.limit, output);
                 Ok(output)
             }
